@@ -103,8 +103,14 @@ class Keys:
 
     def __init__(self, rng, n=6):
         self.sks = []
-        for _ in range(n):
-            sk = ecdsa.SigningKey.from_secret_exponent(rng.randrange(1, 2 ** 200), curve=ecdsa.SECP256k1)
+        for i in range(n):
+            if i == 1 and n >= 2:
+                # the second key is the negation of the first: the same x coordinate (first 32 bytes of the encoding), the
+                # other y — two different keys that agree in half of their bytes
+                d = ecdsa.SECP256k1.order - self.sks[0].privkey.secret_multiplier
+                sk = ecdsa.SigningKey.from_secret_exponent(d, curve=ecdsa.SECP256k1)
+            else:
+                sk = ecdsa.SigningKey.from_secret_exponent(rng.randrange(1, 2 ** 200), curve=ecdsa.SECP256k1)
             self.sks.append(sk)
         self.pks = [sk.verifying_key.to_string() for sk in self.sks]
         self.oracle = []          # (pk, msg, sig) that verify
